@@ -8,8 +8,16 @@
 //!  - a break ends the connection: nothing from it is delivered afterwards, one Reconnecting notice follows, then the
 //!    next connection; at the transformer the break is reported as exactly one terminal error,
 //!  - gap-free in-order delivery preceded by any number of strictly older messages never errors.
+//! Second half (`book_cases`): a ground-truth exchange book (history of level changes, depth updates carrying the changed
+//! levels incl. removals, REST snapshots = the full book as of lastUpdateId) is delivered - perturbed, over several
+//! connections, two instruments per connection - through the same real pieces into the REAL `OrderBookL2Manager` /
+//! `OrderBook`s, and after every applied event
+//!  - the local book equals the exchange book as of the sequence number the local book reports,
+//!  - a re-initialisation snapshot replaces the invalidated book (no ghost levels),
+//!  - and the manager was handed exactly the reference's events (nothing of a connection after its break, notice next).
 use crate::{rng::Rng, report};
 use barter_data::{
+    books::{Level, manager::OrderBookL2Manager, map::{OrderBookMap, OrderBookMapMulti}},
     error::DataError,
     event::MarketEvent,
     exchange::binance::{
@@ -22,9 +30,11 @@ use barter_data::{
     transformer::ExchangeTransformer,
 };
 use barter_instrument::exchange::ExchangeId;
-use barter_integration::{Transformer, subscription::SubscriptionId};
-use futures::StreamExt;
-use std::{cell::RefCell, collections::HashSet, rc::Rc};
+use barter_integration::{Transformer, protocol::websocket::{WebSocketParser, WsMessage}, subscription::SubscriptionId};
+use fnv::FnvHashMap;
+use futures::{FutureExt, StreamExt, future::LocalBoxFuture};
+use rust_decimal::Decimal;
+use std::{cell::RefCell, collections::{BTreeMap, HashSet}, rc::Rc, sync::Arc};
 
 const L_CHAIN: &str = "C06.bounded.admitted_chain_unbroken";
 const L_ENDS: &str = "C06.bounded.break_ends_connection";
@@ -32,6 +42,10 @@ const L_TERMINAL: &str = "C06.bounded.break_is_terminal_error";
 const L_GAPFREE: &str = "C06.bounded.gap_free_never_errors";
 const L_ADMITTED: &str = "C06.bounded.admitted_equals_reference";
 const L_SOFT: &str = "C06.bounded.nonterminal_error_passed_through";
+const L_BOOK: &str = "C06.bounded.book_equals_exchange_book_at_reported_sequence";
+const L_REINIT: &str = "C06.bounded.reinit_snapshot_replaces_book";
+/// only with VX_C06_BUFFERED_BEFORE_SNAPSHOT=1, see `buffered_cases_enabled`
+const L_BUFFERED: &str = "C06.bounded.buffered_update_before_snapshot_keeps_book_exact";
 
 type Key = &'static str;
 type Out = Result<MarketEvent<Key, OrderBookEvent>, DataError>;
@@ -46,7 +60,7 @@ enum Venue { Spot, Futures }
 struct Upd { sym: usize, first: u64, last: u64, prev: u64 }
 
 #[derive(Clone, Copy, Debug, PartialEq, Eq)]
-enum Ev { Update(usize, u64), SoftErr, HardErr, Notice }
+enum Ev { Snapshot(usize, u64), Update(usize, u64), SoftErr, HardErr, Notice }
 
 #[derive(Clone, Copy, Debug, PartialEq, Eq)]
 enum Perturb { None, Drop(usize), Dup(usize), Swap(usize), Replay(usize, usize) }
@@ -143,13 +157,14 @@ fn instrument_map() -> Map<Key> {
 /// per delivery record of what the transformer returned: (delivery index within the connection, ok outputs, terminal errors, other errors)
 type Log = Rc<RefCell<Vec<(usize, usize, usize, usize)>>>;
 
-fn connection<T>(mut tf: T, deliveries: Vec<Upd>, log: Log) -> futures::stream::LocalBoxStream<'static, Out>
+/// the websocket side of one connection: every payload goes through the real transformer when (and only when) the consumer polls for it
+fn connection<T>(mut tf: T, payloads: Vec<String>, log: Log) -> futures::stream::LocalBoxStream<'static, Out>
 where
     T: Transformer<Output = MarketEvent<Key, OrderBookEvent>, Error = DataError, OutputIter = Vec<Out>> + 'static,
 {
-    futures::stream::iter(deliveries.into_iter().enumerate())
-        .map(move |(k, u)| {
-            let input: T::Input = serde_json::from_str(&update_json(&u)).expect("depth update payload");
+    futures::stream::iter(payloads.into_iter().enumerate())
+        .map(move |(k, payload)| {
+            let input: T::Input = serde_json::from_str(&payload).expect("depth update payload");
             let out = tf.transform(input);
             let oks = out.iter().filter(|o| o.is_ok()).count();
             let hard = out.iter().filter(|o| matches!(o, Err(e) if e.is_terminal())).count();
@@ -180,7 +195,8 @@ where
     want.extend(want2.events.iter().cloned());
 
     let (log1, log2): (Log, Log) = Default::default();
-    let conns = vec![connection(make(case.snaps), case.deliveries.clone(), log1.clone()), connection(make(snaps2), deliveries2.clone(), log2.clone())];
+    let payloads = |d: &[Upd]| d.iter().map(update_json).collect::<Vec<_>>();
+    let conns = vec![connection(make(case.snaps), payloads(&case.deliveries), log1.clone()), connection(make(snaps2), payloads(&deliveries2), log2.clone())];
     let key = StreamKey::new("market_stream", ExchangeId::BinanceSpot, Some("l2"));
     let events: Vec<Ev> = futures::executor::block_on(
         futures::stream::iter(conns)
@@ -288,6 +304,463 @@ fn is_gap_free(venue: Venue, snap: u64, c: &[Upd], d: &[Upd]) -> bool {
     }
 }
 
+
+// =====================================================================================================================
+// Local books against a ground-truth exchange book.
+// The venue side is a history of single price level changes per instrument (every change has its own id; spot ids are
+// contiguous per symbol, futures ids are shared between symbols, ie/ have holes). A depth update [U, u] carries the
+// absolute amount of every level changed by the ids in [U, u] (0 = level removed); the REST snapshot with lastUpdateId s
+// is the full book after all changes <= s. Every connection = the real transformer `init` on its snapshots, the snapshots
+// as `OrderBookEvent::Snapshot`s followed by the transformed deliveries (the order `ExchangeWsStream::init` produces for an
+// empty websocket buffer), all connections behind the real `with_termination_on_error` + `with_reconnection_events` +
+// `with_error_handler`, consumed by the REAL `OrderBookL2Manager::run` (one `OrderBook` per instrument for the whole run,
+// `book.update(event.kind)`, a Reconnecting notice is skipped - the re-initialisation snapshot lands on the SAME book).
+// A tap between the combinators and the manager looks at the book the previous event was applied to whenever the manager
+// asks for the next event (ie/ after every applied event):
+//  - its levels (both sides, best first, no empty level) equal the exchange book as of the sequence the local book reports,
+//  - after a re-initialisation snapshot nothing of the invalidated book is left (levels the new snapshot lacks),
+//  - the events the manager got to see are the reference's: once an instrument's chain breaks nothing more of that
+//    connection is applied, the notice comes next.
+// =====================================================================================================================
+
+/// one price level change on the venue; prices and amounts in tenths, amount 0 = the level is gone
+#[derive(Clone, Copy, Debug, PartialEq, Eq)]
+struct Chg { id: u64, bid: bool, price: u32, amount: u32 }
+
+/// one side of a book, best level first
+type Levels = Vec<(u32, u32)>;
+
+struct Hist { sym: usize, id0: u64, base: Vec<(bool, u32, u32)>, changes: Vec<Chg>, groups: Vec<(usize, usize)>, chain: Vec<Upd> }
+
+fn tenths(v: u32) -> String { format!("{}.{}", v / 10, v % 10) }
+fn dec(v: u32) -> Decimal { Decimal::new(v as i64, 1) }
+fn show(l: &[(Decimal, Decimal)]) -> String { format!("[{}]", l.iter().map(|(p, a)| format!("{}x{}", p.normalize(), a.normalize())).collect::<Vec<_>>().join(" ")) }
+fn show_t(l: &Levels) -> String { format!("[{}]", l.iter().map(|(p, a)| format!("{}x{}", dec(*p).normalize(), dec(*a).normalize())).collect::<Vec<_>>().join(" ")) }
+
+impl Hist {
+    /// `base` = the book as of id `id0`; every group of changes is one depth update
+    fn build(sym: usize, venue: Venue, id0: u64, base: Vec<(bool, u32, u32)>, groups: &[Vec<(bool, u32, u32)>], mut hole: impl FnMut() -> u64) -> Hist {
+        let mut h = Hist { sym, id0, base, changes: vec![], groups: vec![], chain: vec![] };
+        let (mut id, mut prev) = (id0, id0);
+        for g in groups {
+            let lo = h.changes.len();
+            for &(bid, price, amount) in g {
+                id += 1 + if venue == Venue::Futures { hole() } else { 0 };
+                h.changes.push(Chg { id, bid, price, amount });
+            }
+            h.groups.push((lo, h.changes.len()));
+            h.chain.push(Upd { sym, first: h.changes[lo].id, last: id, prev });
+            prev = id;
+        }
+        h
+    }
+
+    fn generate(sym: usize, venue: Venue, id0: u64, n: usize, rng: &mut Rng) -> Hist {
+        // the two instruments trade at different prices: an event applied to the wrong book cannot go unnoticed
+        let grid = |bid: bool, k: u64| -> u32 { let mid = 1000 + 3000 * sym as u32; if bid { mid - 5 * (k as u32 + 1) } else { mid + 5 * (k as u32 + 1) } };
+        let mut cur: BTreeMap<(bool, u32), u32> = BTreeMap::new();
+        let mut base = vec![];
+        for bid in [true, false] {
+            for k in 0..7 {
+                if k < 2 || rng.chance(1, 2) { let a = 1 + rng.below(60) as u32; base.push((bid, grid(bid, k), a)); cur.insert((bid, grid(bid, k)), a); }
+            }
+        }
+        let mut groups = vec![];
+        for _ in 0..n {
+            let mut g = vec![];
+            for _ in 0..1 + rng.below(4) {
+                let bid = rng.chance(1, 2);
+                let price = grid(bid, rng.below(7));
+                let have = cur.get(&(bid, price)).copied().unwrap_or(0);
+                let amount = if have > 0 {
+                    if rng.chance(2, 5) { 0 } else { let a = 1 + rng.below(60) as u32; if a == have { a + 1 } else { a } }
+                } else if rng.chance(1, 8) { 0 /* removal of a level that is not there: "can happen and is normal" */ } else { 1 + rng.below(60) as u32 };
+                if amount == 0 { cur.remove(&(bid, price)); } else { cur.insert((bid, price), amount); }
+                g.push((bid, price, amount));
+            }
+            groups.push(g);
+        }
+        let mut r2 = Rng(rng.next() | 1);
+        Hist::build(sym, venue, id0, base, &groups, move || if r2.chance(1, 3) { 1 + r2.below(3) } else { 0 })
+    }
+
+    /// the exchange book after every change with id <= `id`: (bids best first, asks best first)
+    fn book_at(&self, id: u64) -> (Levels, Levels) {
+        let (mut bids, mut asks) = (BTreeMap::new(), BTreeMap::new());
+        for &(bid, p, a) in &self.base { if bid { bids.insert(p, a); } else { asks.insert(p, a); } }
+        for c in self.changes.iter().take_while(|c| c.id <= id) {
+            let side = if c.bid { &mut bids } else { &mut asks };
+            if c.amount == 0 { side.remove(&c.price); } else { side.insert(c.price, c.amount); }
+        }
+        (bids.into_iter().rev().collect(), asks.into_iter().collect())
+    }
+
+    /// the levels a depth update carries: absolute amount of every level touched by its ids, 0 = removed
+    fn carried(&self, u: &Upd) -> (Levels, Levels) {
+        let k = self.chain.iter().position(|c| c.last == u.last).expect("venue update");
+        let (lo, hi) = self.groups[k];
+        let (mut bids, mut asks): (Levels, Levels) = (vec![], vec![]);
+        for c in &self.changes[lo..hi] {
+            let side = if c.bid { &mut bids } else { &mut asks };
+            match side.iter_mut().find(|l| l.0 == c.price) { Some(l) => l.1 = c.amount, None => side.push((c.price, c.amount)) }
+        }
+        (bids, asks)
+    }
+
+    fn describe(&self, upto: usize) -> String {
+        let (b, a) = self.book_at(self.id0);
+        format!("{} book as of id {}: bids {} asks {}; depth updates: {}", SYMBOLS[self.sym], self.id0, show_t(&b), show_t(&a),
+            self.chain.iter().take(upto + 1).map(|u| { let (b, a) = self.carried(u); format!("{}..{}(pu={}) b{} a{}", u.first, u.last, u.prev, show_t(&b), show_t(&a)) }).collect::<Vec<_>>().join(", "))
+    }
+}
+
+fn levels_json(l: &Levels) -> serde_json::Value { serde_json::json!(l.iter().map(|(p, a)| [tenths(*p), tenths(*a)]).collect::<Vec<_>>()) }
+
+fn book_update_json(hists: &[Hist; 2], u: &Upd) -> String {
+    if u.sym >= 2 { return update_json(u); }
+    let (bids, asks) = hists[u.sym].carried(u);
+    serde_json::json!({
+        "e": "depthUpdate", "E": 1571889248277u64, "T": 1571889248276u64, "s": SYMBOLS[u.sym],
+        "U": u.first, "u": u.last, "pu": u.prev, "b": levels_json(&bids), "a": levels_json(&asks),
+    }).to_string()
+}
+
+/// the REST snapshot taken when the venue's last change id was `id`: the full book
+fn book_snapshot_event(venue: Venue, h: &Hist, id: u64) -> MarketEvent<Key, OrderBookEvent> {
+    let (bids, asks) = h.book_at(id);
+    let mut v = serde_json::json!({ "lastUpdateId": id, "bids": levels_json(&bids), "asks": levels_json(&asks) });
+    if venue == Venue::Futures { v["E"] = serde_json::json!(1589436922972u64); v["T"] = serde_json::json!(1589436922959u64); }
+    let snap: BinanceOrderBookL2Snapshot = serde_json::from_value(v).expect("snapshot");
+    MarketEvent::from((if venue == Venue::Spot { ExchangeId::BinanceSpot } else { ExchangeId::BinanceFuturesUsd }, KEYS[h.sym], snap))
+}
+
+/// `buffered`: how many of the deliveries arrived on the websocket while the subscriptions were validated, ie/ before the REST
+/// snapshot was fetched; `ExchangeWsStream::init` runs them through the freshly initialised transformer (`process_buffered_events`)
+/// and hands their outputs over BEFORE the snapshot events. 0 unless `buffered_cases_enabled`.
+struct BConn { snaps: [u64; 2], deliveries: Vec<Upd>, desc: String, buffered: usize }
+
+/// Deliveries whose first updates were BUFFERED during subscription validation (before the REST snapshot was fetched). They go through the
+/// real `process_buffered_events` with the transformer initialised from the snapshots, and are handed to the manager in the order
+/// `ExchangeWsStream::init` (barter-data/src/lib.rs) builds its first outputs: the initial snapshot events, then the buffered outputs.
+/// That order is MIRRORED here (init itself needs a live websocket); it is pinned on the real function by the deductive obligation
+/// [C06.init.snapshots_first_then_buffered_outputs] (/verif/contracts/C06_init.rs.tmpl). The tree as found emitted the buffered outputs
+/// first: a buffered update newer than the snapshot was admitted, wiped out by `*self = snapshot`, and the sequencer kept chaining on it
+/// (fixed: property=C06 5c33a5d in /verif/KNOWN_FINDINGS).
+fn buffered_cases_enabled() -> bool { true }
+
+struct BookCase { venue: Venue, conns: Vec<BConn>, gap_free: bool }
+
+type MakeFut<T> = fn(Vec<MarketEvent<Key, OrderBookEvent>>) -> LocalBoxFuture<'static, T>;
+fn init_spot(snapshots: Vec<MarketEvent<Key, OrderBookEvent>>) -> LocalBoxFuture<'static, BinanceSpotOrderBooksL2Transformer<Key>> {
+    async move {
+        let (tx, _rx) = tokio::sync::mpsc::unbounded_channel();
+        <BinanceSpotOrderBooksL2Transformer<Key> as ExchangeTransformer<_, _, OrderBooksL2>>::init(instrument_map(), &snapshots, tx).await.expect("spot transformer")
+    }.boxed_local()
+}
+fn init_futures(snapshots: Vec<MarketEvent<Key, OrderBookEvent>>) -> LocalBoxFuture<'static, BinanceFuturesUsdOrderBooksL2Transformer<Key>> {
+    async move {
+        let (tx, _rx) = tokio::sync::mpsc::unbounded_channel();
+        <BinanceFuturesUsdOrderBooksL2Transformer<Key> as ExchangeTransformer<_, _, OrderBooksL2>>::init(instrument_map(), &snapshots, tx).await.expect("futures transformer")
+    }.boxed_local()
+}
+
+/// what the tap between the stream combinators and the manager has seen
+#[derive(Default)]
+struct Tap {
+    conn: usize,
+    events: Vec<Ev>,
+    /// the event handed to the manager last: (instrument, is snapshot, sequence, connection)
+    pending: Option<(usize, bool, u64, usize)>,
+    findings: Vec<(&'static str, String, String)>,
+    /// some connection of the case has buffered websocket events
+    buffered: bool,
+}
+
+/// the manager has applied `tap.pending`: look at the book it went to
+fn settle(tap: &mut Tap, books: &OrderBookMapMulti<Key>, hists: &[Hist; 2]) {
+    let Some((sym, is_snapshot, seq, conn)) = tap.pending.take() else { return };
+    let Some(book) = books.find(&KEYS[sym]).map(|b| b.read().clone()) else { return };
+    let label = if tap.buffered { L_BUFFERED } else if is_snapshot && conn > 0 { L_REINIT } else { L_BOOK };
+    if label != L_BUFFERED && tap.findings.iter().any(|f| f.0 == label) { return; }
+    let what = format!("connection #{} {} {} of {}", conn + 1, if is_snapshot { "snapshot" } else { "update" }, seq, KEYS[sym]);
+    if book.sequence != seq {
+        tap.findings.push((label, format!("after {what} was applied the local book reports sequence {}", book.sequence), format!("sequence {seq}")));
+        return;
+    }
+    let local = |l: &[Level]| l.iter().map(|l| (l.price, l.amount)).collect::<Vec<_>>();
+    let truth = |l: &Levels| l.iter().map(|(p, a)| (dec(*p), dec(*a))).collect::<Vec<_>>();
+    let (tb, ta) = hists[sym].book_at(book.sequence);
+    let (tb, ta, lb, la) = (truth(&tb), truth(&ta), local(book.bids().levels()), local(book.asks().levels()));
+    if lb != tb || la != ta {
+        let extra = |l: &[(Decimal, Decimal)], t: &[(Decimal, Decimal)]| l.iter().filter(|x| !t.iter().any(|y| y.0 == x.0)).cloned().collect::<Vec<_>>();
+        tap.findings.push((label,
+            format!("after {what} was applied the local book @{} is bids {} asks {}; levels the exchange book does not have: bids {} asks {}; levels it lacks: bids {} asks {}",
+                book.sequence, show(&lb), show(&la), show(&extra(&lb, &tb)), show(&extra(&la, &ta)), show(&extra(&tb, &lb)), show(&extra(&ta, &la))),
+            format!("exchange book as of {}: bids {} asks {}{}", book.sequence, show(&tb), show(&ta), if label == L_REINIT { " (the snapshot replaces the invalidated book)" } else { "" })));
+    }
+}
+
+fn run_book_case<T>(case: &BookCase, hists: &Rc<[Hist; 2]>, make: MakeFut<T>, seen: &mut HashSet<&'static str>)
+where
+    T: Transformer<Output = MarketEvent<Key, OrderBookEvent>, Error = DataError, OutputIter = Vec<Out>> + 'static,
+{
+    let venue = case.venue;
+    let exchange = if venue == Venue::Spot { ExchangeId::BinanceSpot } else { ExchangeId::BinanceFuturesUsd };
+    let refs: Vec<ConnRef> = case.conns.iter().map(|c| reference(venue, c.snaps, &c.deliveries)).collect();
+    let mut want: Vec<Ev> = vec![];
+    for (c, r) in case.conns.iter().zip(&refs) {
+        want.extend([Ev::Snapshot(0, c.snaps[0]), Ev::Snapshot(1, c.snaps[1])]);
+        want.extend(r.events.iter().cloned());
+    }
+    let logs: Vec<Log> = case.conns.iter().map(|_| Log::default()).collect();
+    let specs: Vec<_> = case.conns.iter().zip(&logs).map(|(c, log)| (
+        vec![book_snapshot_event(venue, &hists[0], c.snaps[0]), book_snapshot_event(venue, &hists[1], c.snaps[1])],
+        c.deliveries.iter().take(c.buffered).map(|u| WsMessage::text(book_update_json(hists, u))).collect::<Vec<_>>(),
+        c.deliveries.iter().skip(c.buffered).map(|u| book_update_json(hists, u)).collect::<Vec<_>>(),
+        log.clone(),
+    )).collect();
+    let buffered = case.conns.iter().any(|c| c.buffered > 0);
+
+    let tap: Rc<RefCell<Tap>> = Rc::new(RefCell::new(Tap { buffered, ..Default::default() }));
+    // one OrderBook per instrument for the whole run, as init_multi_order_book_l2_manager sets them up
+    let books = OrderBookMapMulti::new(KEYS.iter().map(|k| (*k, Arc::new(Default::default()))).collect::<FnvHashMap<_, _>>());
+    let key = StreamKey::new("market_stream", exchange, Some("l2"));
+    let stream = futures::stream::iter(specs)
+        .then(move |(snapshots, buffered, payloads, log)| async move {
+            // as ExchangeWsStream::init: transformer from the snapshots, buffered websocket events through it, then the snapshot events
+            let mut tf = make(snapshots.clone()).await;
+            // (the order of ExchangeWsStream::init AFTER the fix: commit - snapshot events first, then the outputs of the buffered events; the order
+            // itself is pinned on the real function by a contract in /verif/contracts/C06_init.rs.tmpl)
+            let buffered_out = barter_data::process_buffered_events::<WebSocketParser, _>(&mut tf, buffered);
+            let mut processed: std::collections::VecDeque<_> = snapshots.into_iter().map(Ok).collect();
+            processed.extend(buffered_out);
+            futures::stream::iter(processed).chain(connection(tf, payloads, log))
+        })
+        .with_termination_on_error(|e: &DataError| e.is_terminal(), key)
+        .with_reconnection_events(exchange)
+        .with_error_handler({ let tap = tap.clone(); move |e: DataError| tap.borrow_mut().events.push(if e.is_terminal() { Ev::HardErr } else { Ev::SoftErr }) })
+        .map({
+            let (tap, books, hists) = (tap.clone(), books.clone(), hists.clone());
+            move |event| {
+                let mut t = tap.borrow_mut();
+                settle(&mut t, &books, &hists);
+                match &event {
+                    Event::Reconnecting(_) => { t.events.push(Ev::Notice); t.conn += 1; }
+                    Event::Item(ev) => {
+                        let sym = KEYS.iter().position(|k| *k == ev.instrument).unwrap_or(9);
+                        let (is_snapshot, seq) = match &ev.kind { OrderBookEvent::Snapshot(b) => (true, b.sequence), OrderBookEvent::Update(b) => (false, b.sequence) };
+                        t.events.push(if is_snapshot { Ev::Snapshot(sym, seq) } else { Ev::Update(sym, seq) });
+                        let conn = t.conn;
+                        if sym < 2 { t.pending = Some((sym, is_snapshot, seq, conn)); }
+                    }
+                }
+                event
+            }
+        });
+    futures::executor::block_on(OrderBookL2Manager { stream: Box::pin(stream), books: books.clone() }.run());
+    settle(&mut tap.borrow_mut(), &books, hists);
+
+    let t = tap.borrow();
+    let events = &t.events;
+    let input = || {
+        let upto = |sym: usize| case.conns.iter().flat_map(|c| c.deliveries.iter()).filter(|u| u.sym == sym).filter_map(|u| hists[sym].chain.iter().position(|x| x == u)).max().unwrap_or(0);
+        format!("{venue:?}, books kept by OrderBookL2Manager (amounts are absolute, x0 = level removed). Exchange history: {} | {}. Connections (REST snapshot = full exchange book as of lastUpdateId; deliveries symbol U..u): {}",
+            hists[0].describe(upto(0)), hists[1].describe(upto(1)),
+            case.conns.iter().enumerate().map(|(i, c)| format!("#{} snapshots a@{} b@{}, deliveries [{}] ({}{})", i + 1, c.snaps[0], c.snaps[1],
+                c.deliveries.iter().map(|u| format!("{} {}..{}", SYMBOLS[u.sym], u.first, u.last)).collect::<Vec<_>>().join(", "), c.desc,
+                if c.buffered > 0 { format!("; the first {} arrived before the snapshot was fetched and are handed over by ExchangeWsStream::init after the snapshot events", c.buffered) } else { String::new() })).collect::<Vec<_>>().join("; "))
+    };
+    let mut fail = |label: &'static str, observed: String, expected: String| { if seen.insert(label) { report(label, input(), observed, expected); } };
+    for (label, observed, expected) in t.findings.iter().filter(|f| f.0 != L_BUFFERED) { fail(label, observed.clone(), expected.clone()); }
+    // buffered deliveries: the first and the last state of a book that was not the exchange's
+    let b: Vec<_> = t.findings.iter().filter(|f| f.0 == L_BUFFERED).collect();
+    if let (Some(first), Some(last)) = (b.first(), b.last()) {
+        fail(L_BUFFERED, format!("{}; ... finally: {}; the manager was handed {:?}", first.1, last.1, events), format!("{}; ... finally: {}; no terminal error / notice was due", first.2, last.2));
+    }
+    // the reference below describes the order snapshots first, then the deliveries
+    if buffered { return; }
+
+    // after a break the consumer is told before anything else of that connection reaches the books
+    let parts: Vec<&[Ev]> = events.split(|e| *e == Ev::Notice).collect();
+    let reached = |c: usize| parts.get(c).map_or(0, |p| p.len());
+    for (c, r) in refs.iter().enumerate() {
+        let Some(k) = r.break_at else { continue };
+        let n_before = 2 + r.events.len() - 1;
+        if reached(c) > n_before || c + 1 >= parts.len() {
+            fail(L_ENDS, format!("connection #{}: chain of {} breaks at delivery #{k}; the manager was handed {:?}", c + 1, SYMBOLS[case.conns[c].deliveries[k].sym], events),
+                 format!("{want:?} (the connection ends at the break, one notice, then the re-initialisation snapshots)"));
+        }
+        let l = logs[c].borrow();
+        if let Some(rec) = l.iter().find(|r| r.0 == k) {
+            if (rec.1, rec.2, rec.3) != (0, 1, 0) { fail(L_TERMINAL, format!("connection #{}: transformer output for delivery #{k}: {} events, {} terminal errors, {} other errors", c + 1, rec.1, rec.2, rec.3), "exactly one terminal (InvalidSequence) error".into()); }
+        } else if *events == want {
+            fail(L_TERMINAL, format!("connection #{}: delivery #{k} never reached the transformer", c + 1), "processed and reported as terminal error".into());
+        }
+        if l.iter().any(|r| r.0 > k) { fail(L_ENDS, format!("connection #{}: deliveries {:?} were still processed after the break at #{k}", c + 1, l.iter().filter(|r| r.0 > k).map(|r| r.0).collect::<Vec<_>>()), "connection dropped at the break".into()); }
+    }
+    if *events != want {
+        let label = if events.contains(&Ev::HardErr) { L_ENDS }
+            else if case.gap_free { L_GAPFREE }
+            else if refs.iter().enumerate().any(|(c, r)| r.break_at.is_some() && reached(c) >= 2 + r.events.len() - 1) { L_ENDS }
+            else if events.iter().filter(|e| **e == Ev::SoftErr).count() != want.iter().filter(|e| **e == Ev::SoftErr).count() { L_SOFT }
+            else { L_ADMITTED };
+        fail(label, format!("the manager was handed {events:?}"), format!("{want:?}"));
+    }
+    if case.gap_free && (refs.iter().any(|r| r.break_at.is_some()) || logs.iter().any(|l| l.borrow().iter().any(|r| r.2 > 0))) {
+        fail(L_GAPFREE, format!("terminal error on a gap-free in-order delivery: transformer logs {:?}", logs.iter().map(|l| l.borrow().clone()).collect::<Vec<_>>()), "no error".into());
+    }
+}
+
+fn pick_perturb(rng: &mut Rng) -> Perturb {
+    match rng.below(6) { 0 => Perturb::Drop(rng.below(6) as usize), 1 => Perturb::Dup(rng.below(6) as usize), 2 => Perturb::Swap(rng.below(5) as usize), 3 => { let i = rng.below(6) as usize; Perturb::Replay(i, rng.below(i as u64 + 1) as usize) } _ => Perturb::None }
+}
+
+/// per instrument: (snapshot id, first index of the venue chain delivered, one past the last, perturbation)
+type Leg = (u64, usize, usize, Perturb);
+
+fn make_conn(venue: Venue, hists: &[Hist; 2], legs: [Leg; 2], mode: u64, stray: bool, rng: &mut Rng) -> (BConn, bool) {
+    let mut per: Vec<Vec<Upd>> = vec![];
+    let (mut gap_free, mut desc) = (true, vec![]);
+    for (sym, &(snap, start, end, p)) in legs.iter().enumerate() {
+        let c = &hists[sym].chain;
+        let d = perturb(&c[..end.min(c.len())], start, p);
+        gap_free &= is_gap_free(venue, snap, c, &d);
+        desc.push(format!("{}: venue chain from index {start} to {} with {p:?}", KEYS[sym], end.min(c.len()) - 1));
+        per.push(d);
+    }
+    let mut deliveries = interleave(&per[0], &per[1], mode, rng);
+    if stray { deliveries.insert(deliveries.len() / 2, Upd { sym: 2, first: 1, last: 2, prev: 0 }); desc.push("one update for an unsubscribed symbol".into()); }
+    (BConn { snaps: [legs[0].0, legs[1].0], deliveries, desc: desc.join("; "), buffered: 0 }, gap_free)
+}
+
+/// how far into the venue chains a connection got before it ended (chain index of the newest update seen per instrument)
+fn reach(venue: Venue, hists: &[Hist; 2], conn: &BConn, from: [usize; 2]) -> [usize; 2] {
+    let r = reference(venue, conn.snaps, &conn.deliveries);
+    let upto = r.break_at.map_or(conn.deliveries.len(), |k| k + 1);
+    let mut at = from;
+    for u in &conn.deliveries[..upto] {
+        if u.sym < 2 { if let Some(i) = hists[u.sym].chain.iter().position(|x| x == u) { at[u.sym] = at[u.sym].max(i); } }
+    }
+    at
+}
+
+/// a random connection that starts around chain index `from` of each instrument
+fn random_conn(venue: Venue, hists: &[Hist; 2], from: [usize; 2], clean: [bool; 2], rng: &mut Rng) -> (BConn, bool) {
+    let mut legs: [Leg; 2] = [(0, 0, 0, Perturb::None); 2];
+    for sym in 0..2 {
+        let c = &hists[sym].chain;
+        let start = from[sym].min(c.len() - 5);
+        // mostly: `cover - start` strictly older updates first (replays of what the previous connection already had), the snapshot id inside or next to update `cover`
+        let cover = start + rng.below(3) as usize;
+        let snap = if rng.chance(1, 6) { c[start].first - 1 + rng.below(c[start + 3].last - c[start].first + 3) } else { c[cover].first - 1 + rng.below(c[cover].last - c[cover].first + 2) };
+        let end = start + 4 + rng.below(4) as usize;
+        legs[sym] = (snap, start, end, if clean[sym] { Perturb::None } else { pick_perturb(rng) });
+    }
+    let stray = rng.chance(1, 12);
+    make_conn(venue, hists, legs, 3, stray, rng)
+}
+
+/// the scenario of /verif/seeded/C06-f/demo.diff on the model: `a` loses the update that removes its best bid and best ask, the
+/// next update breaks the chain, the re-initialisation snapshot (taken after the lost update) lacks both levels
+fn ghost_level_case(venue: Venue) -> (Rc<[Hist; 2]>, BookCase) {
+    let (b, a) = (true, false);
+    let mut k = 0u64;
+    let hole = move || { k += 1; if k % 3 == 0 { 2 } else { 0 } };
+    let ha = Hist::build(0, venue, 100, vec![(b, 1000, 10), (b, 990, 20), (b, 980, 30), (a, 1010, 10), (a, 1020, 20), (a, 1030, 30)], &[
+        vec![(b, 500, 10), (b, 500, 0)],                      // 0: older than the first snapshot
+        vec![(b, 1000, 40), (a, 1030, 35), (b, 985, 15)],     // 1
+        vec![(b, 1000, 0), (a, 1010, 0), (a, 1015, 70)],      // 2: LOST - removes best bid and best ask
+        vec![(b, 990, 50), (b, 970, 5), (b, 970, 0)],         // 3: breaks the chain
+        vec![(b, 970, 10), (a, 1020, 0)],                     // 4
+        vec![(b, 960, 20)],                                   // 5
+        vec![(a, 1015, 0), (a, 1040, 12)],                    // 6
+    ], hole);
+    let hb = Hist::build(1, venue, 500, vec![(b, 100, 10), (b, 90, 20), (a, 110, 10), (a, 120, 20)], &[
+        vec![(b, 100, 30), (a, 115, 10)],                     // 0
+        vec![(b, 90, 0)],                                     // 1: never consumed on connection #1
+        vec![(a, 110, 0), (b, 80, 60), (a, 115, 0)],          // 2
+        vec![(b, 80, 70)],                                    // 3
+        vec![(a, 120, 25)],                                   // 4
+    ], move || 1);
+    let d = |h: &Hist, i: usize| h.chain[i];
+    let conn1 = BConn { snaps: [ha.chain[0].last, hb.id0 + if venue == Venue::Spot { 0 } else { 1 }],
+        deliveries: vec![d(&ha, 0), d(&ha, 1), d(&hb, 0), d(&ha, 3), d(&hb, 1)], desc: "a: update index 2 lost".into(), buffered: 0 };
+    let conn2 = BConn { snaps: [ha.chain[3].last, hb.chain[2].last],
+        deliveries: vec![d(&ha, 3), d(&ha, 4), d(&hb, 2), d(&hb, 3), d(&ha, 5), d(&ha, 6), d(&hb, 4)], desc: "re-initialisation, gap-free after replays of older updates".into(), buffered: 0 };
+    (Rc::new([ha, hb]), BookCase { venue, conns: vec![conn1, conn2], gap_free: false })
+}
+
+fn book_cases(venue: Venue, thorough: bool, rng: &mut Rng, seen: &mut HashSet<&'static str>) -> u64 {
+    let go = |case: BookCase, hists: &Rc<[Hist; 2]>, seen: &mut HashSet<&'static str>| match venue {
+        Venue::Spot => run_book_case(&case, hists, init_spot, seen),
+        Venue::Futures => run_book_case(&case, hists, init_futures, seen),
+    };
+    let mut n = 0u64;
+    const N: usize = 26;
+    // 1. directed: ghost levels
+    let (hists, case) = ghost_level_case(venue);
+    go(case, &hists, seen);
+    n += 1;
+    if buffered_cases_enabled() {
+        // gap-free delivery on both connections; the REST snapshots are older than the newest websocket event already received
+        let (hists, mut case) = ghost_level_case(venue);
+        case.conns[0].deliveries.insert(3, hists[0].chain[2]);
+        case.conns[0].desc = "gap-free".into();
+        case.conns[0].buffered = 2;
+        case.conns[1].snaps[0] = hists[0].chain[4].last;
+        case.conns[1].buffered = 2;
+        go(case, &hists, seen);
+        n += 1;
+    }
+
+    // 2. sweep: every single perturbation of `a` x every snapshot id around its first updates; then a clean re-initialisation
+    //    whose snapshot is taken after everything connection #1 got to see, preceded by replays of older updates
+    let hists: Rc<[Hist; 2]> = Rc::new([Hist::generate(0, venue, 100, N, rng), Hist::generate(1, venue, 500, N, rng)]);
+    let (a, b) = (&hists[0].chain, &hists[1].chain);
+    let mut perturbs = vec![Perturb::None];
+    for i in 0..5 { perturbs.push(Perturb::Drop(i)); perturbs.push(Perturb::Dup(i)); perturbs.push(Perturb::Swap(i)); }
+    for (i, j) in [(1, 0), (2, 1), (3, 0), (4, 3), (5, 2)] { perturbs.push(Perturb::Replay(i, j)); }
+    let starts: &[usize] = if thorough { &[0, 1, 2] } else { &[0, 1] };
+    for &p in &perturbs {
+        for sa in a[0].first - 1..=a[3].last {
+            for &start in starts {
+                let (conn1, gf1) = make_conn(venue, &hists, [(sa, start, 8, p), (b[1].last, 0, 7, Perturb::None)], (sa + start as u64) % 3, false, rng);
+                let at = reach(venue, &hists, &conn1, [0, 0]);
+                // snapshot: a) the newest update #1 saw (for a break: the one that did not fit) .. or one later, inside it when it spans several ids
+                let ia = (at[0] + (sa % 2) as usize).min(N - 6);
+                let sa2 = if sa % 3 == 0 && a[ia].first < a[ia].last { a[ia].last - 1 } else { a[ia].last };
+                let ib = at[1].min(N - 6);
+                let (conn2, gf2) = make_conn(venue, &hists, [(sa2, ia.saturating_sub(2), ia + 5, Perturb::None), (b[ib].last, ib.saturating_sub(1), ib + 4, Perturb::None)], 3, false, rng);
+                go(BookCase { venue, conns: vec![conn1, conn2], gap_free: gf1 && gf2 }, &hists, seen);
+                n += 1;
+            }
+        }
+    }
+
+    // 3. seeded random: 2..4 connections, every one possibly perturbed on both instruments; fresh history every 40 cases
+    let mut hists = hists;
+    for i in 0..if thorough { 40_000 } else { 1_500 } {
+        if i % 40 == 0 { hists = Rc::new([Hist::generate(0, venue, 100 + rng.below(50), N, rng), Hist::generate(1, venue, 500 + rng.below(50), N, rng)]); }
+        let n_conns = 2 + rng.below(if thorough { 3 } else { 2 }) as usize;
+        let all_clean = rng.chance(1, 5);
+        let (mut conns, mut gap_free, mut from) = (vec![], true, [rng.below(3) as usize, rng.below(3) as usize]);
+        for _ in 0..n_conns {
+            let clean = [all_clean || rng.chance(1, 2), all_clean || rng.chance(1, 2)];
+            let (conn, gf) = random_conn(venue, &hists, from, clean, rng);
+            let at = reach(venue, &hists, &conn, from);
+            // the next connection replays up to two updates the books already have
+            from = [at[0].saturating_sub(rng.below(3) as usize), at[1].saturating_sub(rng.below(3) as usize)];
+            gap_free &= gf;
+            let mut conn = conn;
+            if buffered_cases_enabled() && rng.chance(1, 3) { conn.buffered = (1 + rng.below(3) as usize).min(conn.deliveries.len()); }
+            conns.push(conn);
+        }
+        go(BookCase { venue, conns, gap_free }, &hists, seen);
+        n += 1;
+    }
+    n
+}
+
 pub fn run(seed: u64, thorough: bool) -> u64 {
     let mut seen: HashSet<&'static str> = HashSet::new();
     let mut n = 0u64;
@@ -347,6 +820,11 @@ pub fn run(seed: u64, thorough: bool) -> u64 {
             go(Case { venue, snaps: [sa, sb], deliveries, desc: format!("a: from {start_a} with {pa:?}; b: from {start_b} with {pb:?}"), gap_free }, &mut seen);
             n += 1;
         }
+    }
+    // local books against the ground-truth exchange book
+    let mut rng = Rng::seeded(seed, 606);
+    for venue in [Venue::Spot, Venue::Futures] {
+        n += book_cases(venue, thorough, &mut rng, &mut seen);
     }
     n
 }
